@@ -184,6 +184,20 @@ func (cs *CondSpace) Equiv(a, b Bits) (bool, string) {
 	return true, ""
 }
 
+// EquivStrict: reach ⇔ want where want mentions only named atoms. "⇒" is checked after quantifying the unnamed
+// conditions away existentially (some way of reaching the target must imply want); "⇐" is checked on the raw
+// function, i.e. universally: no unnamed condition (a test the rule does not know about) may prevent the target from
+// being reached when want holds.
+func (cs *CondSpace) EquivStrict(reach, want Bits) (bool, string) {
+	if ok, w := cs.Implies(cs.OnlyNamed(reach), want); !ok {
+		return false, "reached although formula is false: " + w
+	}
+	if ok, w := cs.Implies(want, reach); !ok {
+		return false, "formula true but not reached (an additional, unrecognised condition guards it): " + w
+	}
+	return true, ""
+}
+
 func (cs *CondSpace) Satisfiable(a Bits) bool { return !isZero(and(a, cs.Univ)) }
 
 func (cs *CondSpace) assignment(bad Bits) string {
